@@ -51,7 +51,7 @@ def check(pid, tier, root, seed):
         if short not in mod.EXPLANATION and fn.__doc__:
             extra.append(f"({name}) " + ' '.join(fn.__doc__.split()))
     expl = mod.EXPLANATION + ((' Further rules evaluated: ' + ' '.join(extra)) if extra else '') + \
-        ' All rules run on the canonicalised program model (gscan/canon.py: if-arm order, comparison direction, keyword/positional calls).'
+        ' All rules run on the canonicalised program model (gscan/canon.py, gscan/inline.py: negation normal form and polarity, guard clauses vs nesting, loops vs comprehensions, conditional expressions vs statements, helpers extracted from the reference functions inlined, temporaries written out where provably behaviour-preserving, keyword/positional calls).'
     code, lines, summary = ctx.finish(expl, mod.ASSUMPTIONS, mod.RULE_TEXT, proof)
     for ln in lines:
         print(ln)
